@@ -93,3 +93,16 @@ impl<'a> DocExt for DocBuilder<'a, Arena<'a>> {
     #[verifier::external_body]
     fn repeat_n(self, n: usize) -> (r: Self) ensures r@ == repeat_doc(self@, n as nat) { unimplemented!() }
 }
+
+/// views of a vector of documents
+pub open spec fn docs_v<'a>(s: Seq<ArenaDoc<'a>>) -> Seq<DocV> { s.map_values(|d: ArenaDoc<'a>| d@) }
+/// anything `concat` / `intersperse` accept: its documents in order
+pub trait DocSeq { spec fn docs(&self) -> Seq<DocV>; }
+impl<'a> DocSeq for Vec<ArenaDoc<'a>> { open spec fn docs(&self) -> Seq<DocV> { docs_v(self@) } }
+impl<'a> DocSeq for VpIter<ArenaDoc<'a>> { open spec fn docs(&self) -> Seq<DocV> { docs_v(self.rest()) } }
+impl<'a> Arena<'a> {
+    #[verifier::external_body]
+    pub fn concat<I: DocSeq>(&'a self, docs: I) -> (r: ArenaDoc<'a>) ensures r@ == cat_all(docs.docs()) { unimplemented!() }
+    #[verifier::external_body]
+    pub fn intersperse<I: DocSeq, S: IntoDoc>(&'a self, docs: I, sep: S) -> (r: ArenaDoc<'a>) ensures r@ == intersperse_doc(docs.docs(), sep.docv()) { unimplemented!() }
+}
